@@ -105,6 +105,14 @@ class JSONData(ABC):
     def __str__(self):
         return str(self._data)
 
+    def __eq__(self, other):
+        if not isinstance(other, JSONData):
+            return False
+        return self.__class__ == other.__class__ and self.data == other.data
+
+    def __hash__(self):
+        return hash((self.__class__.__name__, self._data))
+
     def __repr(self):
         return str(self)
 
